@@ -14,22 +14,52 @@ def usizeMaxN : Nat := 18446744073709551615
 /-- the `PosUsize` of an integer -/
 def puOfInt (i : Int) : PosUsize := (decide (0 ≤ i), i.natAbs)
 
-theorem asPosUsize_int (i : Int) : Num.asPosUsize (.int i) = some (puOfInt i) := by
-  simp [Num.asPosUsize, puOfInt]
+theorem asPosUsize_int (i : Int) : numAsPosUsize (.int i) = some (puOfInt i) := by
+  simp [numAsPosUsize, Num.asPosUsize, puOfInt]
 
 theorem asPosUsize_big (i : Int) (h : i.natAbs ≤ usizeMaxN) :
-    Num.asPosUsize (.big i) = some (puOfInt i) := by
+    numAsPosUsize (.big i) = some (puOfInt i) := by
   have : (Int.ofNat i.natAbs ≤ usizeMax) := by
     unfold usizeMax; unfold usizeMaxN at h; simp only [Int.ofNat_eq_natCast]; omega
-  simp only [Num.asPosUsize, if_pos this, puOfInt]
-  congr 2
-  by_cases h0 : i < 0 <;> simp [h0] <;> omega
+  have hs : (!decide (i < 0)) = decide (0 ≤ i) := by
+    by_cases h0 : i < 0 <;> simp [h0] <;> omega
+  simp only [numAsPosUsize, Num.asPosUsize, if_pos this, puOfInt]
+  cases fixBigintBound
+  · simp [hs]
+  · unfold usizeMaxN at h; unfold usizeMaxNat; simp [hs]; omega
 
-theorem asPosUsize_big_none (i : Int) (h : usizeMaxN < i.natAbs) :
-    Num.asPosUsize (.big i) = none := by
+/-- beyond `usize::MAX`: refused (unfixed) or saturated (fixed) -/
+theorem asPosUsize_big_beyond (i : Int) (h : usizeMaxN < i.natAbs) :
+    numAsPosUsize (.big i) = if fixBigintBound then some (decide (0 ≤ i), usizeMaxN) else none := by
   have : ¬ (Int.ofNat i.natAbs ≤ usizeMax) := by
     unfold usizeMax; unfold usizeMaxN at h; simp only [Int.ofNat_eq_natCast]; omega
-  simp only [Num.asPosUsize, if_neg this]
+  have hs : (!decide (i < 0)) = decide (0 ≤ i) := by
+    by_cases h0 : i < 0 <;> simp [h0] <;> omega
+  simp only [numAsPosUsize, Num.asPosUsize, if_neg this]
+  cases fixBigintBound
+  · simp
+  · unfold usizeMaxN at h ⊢; unfold usizeMaxNat; simp [hs]; omega
+
+/-- a saturated position is outside every container shorter than `usize::MAX` -/
+theorem absIndex_saturated (s : Bool) (len : Nat) (h : len < usizeMaxN) :
+    absIndex (s, usizeMaxN) len = none := by
+  unfold absIndex wrap
+  cases s
+  · have : ¬ usizeMaxN ≤ len := by omega
+    simp [this]
+  · have : ¬ usizeMaxN < len := by omega
+    simp [this]; omega
+
+/-- a saturated bound clips like the integer it stands for -/
+theorem absBound_saturated (i : Int) (len d : Nat) (hi : usizeMaxN < i.natAbs) (h : len < usizeMaxN) :
+    absBound (some (decide (0 ≤ i), usizeMaxN)) len d = Spec.norm i len := by
+  unfold absBound wrap Spec.norm
+  by_cases h0 : 0 ≤ i
+  · have : ¬ i < 0 := by omega
+    simp [h0, this]; omega
+  · have h1 : i < 0 := by omega
+    have : ¬ usizeMaxN ≤ len := by omega
+    simp [h0, h1, this]; omega
 
 theorem wrap_puOfInt (i : Int) (len : Nat) :
     wrap (puOfInt i) len =
